@@ -323,14 +323,14 @@ theorem dynGas_call (gc : GasCfg) (f : DynFn) (s : List Word) (m m' : Mem) (ms g
 /-! ## the only `execute` functions that start a new frame -/
 
 def reqGas : Req → Nat
-  | .call _ _ _ _ gas _ _ => gas
+  | .call _ _ _ _ gas _ _ _ => gas
   | .create _ _ _ gas => gas
 
 /-- what an `invoke` can be: a create forwarding all but one 64th (and deducting it),
     or a call forwarding `callGasTemp`, plus the 2300 stipend only for CALL/CALLCODE with value -/
 def InvokeOk (e : Exec) (fr : Frame) (args : List Word) (cgt : Nat) (r : Req) (d : Nat) : Prop :=
   ((e = .create ∨ e = .create2) ∧ d = wsub fr.gas (fr.gas / 64) ∧ reqGas r = d ∧ (∃ s v i, r = .create s v i d)) ∨
-  (∃ k, e = .call k ∧ d = 0 ∧ (∃ a v i ro rs, r = .call k a v i (reqGas r) ro rs) ∧
+  (∃ k, e = .call k ∧ d = 0 ∧ (∃ a v i ro rs io, r = .call k a v i (reqGas r) ro rs io) ∧
     (reqGas r = cgt ∨ (reqGas r = wadd cgt 2300 ∧ (k = .call ∨ k = .callcode) ∧ args.getD 2 0 ≠ 0)))
 
 set_option hygiene false in
@@ -355,10 +355,10 @@ theorem execOp_invoke_other (cx : Ctx) (ro : Bool) (e : Exec) (fr : Frame) (args
 set_option maxHeartbeats 1000000 in
 theorem execOp_invoke_call (cx : Ctx) (ro : Bool) (k : CallKind) (fr : Frame) (args : List Word) (g : Global) (cgt : Nat)
     (r : Req) (d : Nat) (g' : Global) (h : execOp cx ro (.call k) fr args g cgt = .invoke r d g') :
-    d = 0 ∧ (∃ a v i ro rs, r = .call k a v i (reqGas r) ro rs) ∧
+    d = 0 ∧ (∃ a v i ro rs io, r = .call k a v i (reqGas r) ro rs io) ∧
     (reqGas r = cgt ∨ (reqGas r = wadd cgt 2300 ∧ (k = .call ∨ k = .callcode) ∧ args.getD 2 0 ≠ 0)) := by
   cases k <;> invoke_cases
-  all_goals (cases h; refine ⟨rfl, ⟨_, _, _, _, _, rfl⟩, ?_⟩; simp only [reqGas])
+  all_goals (cases h; refine ⟨rfl, ⟨_, _, _, _, _, _, rfl⟩, ?_⟩; simp only [reqGas])
   all_goals (first | (right; simp [*]; done) | (left; exact trivial) | (left; exact rfl))
 
 theorem execOp_invoke_create0 (cx : Ctx) (ro : Bool) (e : Exec) (he : e = .create ∨ e = .create2) (fr : Frame) (args : List Word) (g : Global) (cgt : Nat)
@@ -538,7 +538,7 @@ theorem doInvoke_good {run : Runner} {G : Nat} (hP : ErrPred P) (cx : Ctx) (hr :
     (fr : Frame) (r : Req) (g : Global) (hg : reqGas r ≤ G) :
     GoodRes P (reqGas r) (doInvoke cx run depth ro fr r g) := by
   cases r with
-  | call k addr value input gas ro' rs => exact evmCall_good hP hr _ _ _ _ _ _ _ _ _ _ _ hg
+  | call k addr value input gas ro' rs io => exact evmCall_good hP hr _ _ _ _ _ _ _ _ _ _ _ hg
   | create salt value init gas => exact evmCreate_good hP cx hr _ _ _ _ _ _ _ _ hg
 
 /-! ## the loop: gas only decreases, and `2·gas + stack height + 1` loop iterations suffice -/
